@@ -183,8 +183,8 @@ theorem infoC_ne (H : CPath) : infoC H ≠ [] := by simp [infoC]
 theorem filesC_ne (H : CPath) : filesC H ≠ [] := by simp [filesC]
 
 theorem homeInfoDir {H : CPath} (h0 : H ≠ []) (hn : GoodNames H) :
-    pjoin (normpath (homeStr H)) (b "info") = toStr (infoC H) := by
-  rw [homeStr_eq h0, normpath_toStr _ (goodT hn)]
+    pjoin (homeStr H) (b "info") = toStr (infoC H) := by
+  rw [homeStr_eq h0]
   exact pjoin_toStr (trashC_ne H) (goodT hn) _ (by decide +kernel)
 
 theorem infoPath_eq {H : CPath} (hn : GoodNames H) {name : Bytes} (hg : GoodNames [name]) :
